@@ -36,6 +36,7 @@ struct BasisRestore { ~BasisRestore () { Pauli::basis().set_basis (Signal::Linea
 int main ()
 {
   OpTable ops;
+  typedef Jones<Rat> JR;
 
   // ---- Jones algebra (C04) ----
   OP("j.add") { auto a=A.jones(); auto b=A.jones(); O.put (Jones<Rat>(a+b)); };
@@ -92,6 +93,14 @@ int main ()
   OP("q.smul") { auto a=A.quat<H>(); auto c=A.rat(); O.put (Quaternion<Rat,H>(a*c)); };
   OP("b.sdiv") { auto a=A.biquat<H>(); auto c=A.cx(); O.put (Quaternion<CRat,H>(a/c)); };
   OP("q.sdiv") { auto a=A.quat<U>(); auto c=A.rat(); O.put (Quaternion<Rat,U>(a/c)); };
+  // scalar multiples with the scalar taken from the quaternion itself (through the mutable accessor)
+  OP("q.smul.self") { auto a=A.quat<H>(); unsigned k=A.nat(); a *= a[k]; O.put (a); };
+  OP("q.sdiv.self") { auto a=A.quat<U>(); unsigned k=A.nat(); a /= a[k]; O.put (a); };
+  OP("b.smul.self") { auto a=A.biquat<U>(); unsigned k=A.nat(); a *= a[k]; O.put (a); };
+  OP("b.sdiv.self") { auto a=A.biquat<H>(); unsigned k=A.nat(); a /= a[k]; O.put (a); };
+  OP("o.c03.scalself") { auto a=A.biquat<H>(); unsigned k=A.nat(); CRat c = a[k]; JR j = convert(a);
+    Quaternion<CRat,H> m = a; m *= m[k]; O.put (JR(convert(m) - j*c));
+    if (c != CRat(0)) { Quaternion<CRat,H> d = a; d /= d[k]; O.put (JR(convert(d) - j/c)); } };
   OP("q.addscalar") { auto a=A.quat<U>(); auto c=A.rat(); a+=c; O.put (a); a-=c; a-=c; O.put (a); };
   OP("b.conjH") { auto a=A.biquat<H>(); O.put (conj(a)); };
   OP("b.conjU") { auto a=A.biquat<U>(); O.put (conj(a)); };
@@ -187,11 +196,11 @@ int main ()
   // Oracle operations: the property itself evaluated on the implementation alone, in exact
   // arithmetic.  Every output value must be zero.
   // =====================================================================================
-  typedef Jones<Rat> JR;
   typedef Quaternion<CRat,H> BH;  typedef Quaternion<CRat,U> BU;
   typedef Quaternion<Rat,H> QH;   typedef Quaternion<Rat,U> QU;
 
   // ---- C03 ----
+  typedef Jones<Rat> JR0;
   OP("o.c03.roundH") { auto q=A.biquat<H>(); O.put (BH(convert(convert(q)) - q)); };
   OP("o.c03.roundU") { auto q=A.biquat<U>(); O.put (BU(unitary(convert(q)) - q)); };
   OP("o.c03.roundJ") { auto j=A.jones(); O.put (JR(convert(convert(j)) - j)); O.put (JR(convert(unitary(j)) - j)); };
